@@ -55,7 +55,7 @@ def drop_null_optionals(v, optional):
 
 def c17(ck):
     rng = random.Random(ck.seed)
-    quick = ck.tier == "quick"
+    quick = ck.quick
     ref = regenerate(["WireGen.v", "SetGen.v"])
     for n, msg in ref:
         ck.tie_broken.append("translator refused %s: %s" % (n, msg))
